@@ -189,7 +189,70 @@ pub fn single_edits(tok: &[u8], f: &mut dyn FnMut(&[u8])) {
     }
 }
 
+/// Request lines built from method / version / URI tokens, several in a row on ONE connection: a token means the same
+/// whatever was parsed before it — a line is accepted exactly when its method and version tokens are, and the
+/// delivered request shows the values the token functions give for them.
+pub fn tokens_on_one_connection(rec: &mut Rec, lines: &[(&str, &str, &str)]) {
+    use crate::conn::ConnDriver;
+    rec.case("tokens-on-one-connection");
+    let mut d = ConnDriver::new(rec, 51200);
+    for (k, (m, u, v)) in lines.iter().enumerate() {
+        if d.conn.is_none() {
+            break;
+        }
+        let head = format!("{} {} {}\r\n\r\n", m, u, v).into_bytes();
+        let results = d.recv(rec, &head, 0);
+        let rejected = results.iter().any(|t| t.starts_with("parse("));
+        let mt = Method::try_from(m.as_bytes()).ok();
+        let vt = Version::try_from(v.as_bytes()).ok();
+        let want_ok = mt.is_some() && vt.is_some();
+        let mut log = d.log.clone();
+        log.push(format!("method {}", hx(m.as_bytes())));
+        log.push(format!("version {}", hx(v.as_bytes())));
+        rec.nontrivial();
+        if want_ok == rejected {
+            rec.oracle_fail("C16", &format!("request line {} of the connection ({} {} {}): the token functions {} its method and version, the connection {} it: {:?}",
+                k, m, u, v, if want_ok { "accept" } else { "reject one of" }, if rejected { "rejected" } else { "accepted" }, results), &log);
+            break;
+        }
+        if !want_ok {
+            rec.count("conn-line:rejected");
+            continue;
+        }
+        rec.count("conn-line:accepted");
+        match d.pop(rec) {
+            None => {
+                rec.oracle_fail("C16", &format!("request line {} of the connection was accepted but nothing was delivered", k), &log);
+                break;
+            }
+            Some(_) => {
+                let r = d.held.last().unwrap();
+                let abs = micro_http::Request::try_from(&head[..], None).ok().map(|q| q.uri().get_abs_path().to_string());
+                if Some(r.method()) != mt || Some(r.http_version()) != vt || Some(r.uri().get_abs_path().to_string()) != abs {
+                    rec.oracle_fail("C16", &format!("request {} of the connection ({} {} {}) was delivered with other token values", k, m, u, v), &log);
+                    break;
+                }
+            }
+        }
+    }
+}
+
 pub fn run(rec: &mut Rec, rng: &mut Rng, thorough: bool) {
+    // token sequences on one connection: all sequences of length 2 and 3 over a small alphabet of lines
+    {
+        let alpha: [(&str, &str, &str); 8] = [("GET", "/a", "HTTP/1.1"), ("GET", "/a", "HTTP/1.0"), ("PUT", "http://h/x", "HTTP/1.0"), ("PATCH", "x", "HTTP/1.1"),
+            ("get", "/a", "HTTP/1.1"), ("POST", "/a", "HTTP/1.0"), ("GET", "/a", "HTTP/2.0"), ("PUT", "/b", "http/1.1")];
+        for a in alpha {
+            for b in alpha {
+                tokens_on_one_connection(rec, &[a, b]);
+                for c in alpha {
+                    if thorough || (a.2 != b.2 || b.2 != c.2) {
+                        tokens_on_one_connection(rec, &[a, b, c, a]);
+                    }
+                }
+            }
+        }
+    }
     // the raw tables
     rec.case("rawtable");
     let methods = [Method::Get, Method::Put, Method::Patch];
